@@ -55,6 +55,7 @@ impl EdgeTraversal {
     ) -> Result<EdgeTraversal, SearchError> {
         let mut result_state = prev_state.to_vec();
         let mut access_cost = Cost::ZERO;
+        let mut access_edges = None;
 
         // find this traversal in the graph
         let traversal_trajectory = si.directed_graph.edge_triplet(&next_edge_id)?;
@@ -75,6 +76,7 @@ impl EdgeTraversal {
                 .cost_model
                 .access_cost(e1, e2, prev_state, &result_state)?;
             access_cost = access_cost + ac;
+            access_edges = Some((e1, e2));
         }
 
         si.traversal_model.traverse_edge(
@@ -84,9 +86,11 @@ impl EdgeTraversal {
         )?;
 
         let (_, edge, _) = traversal_trajectory;
+        // the total includes the network cost of the access (e.g. a turn surcharge), of which
+        // access_cost is a share
         let total_cost = si
             .cost_model
-            .traversal_cost(edge, prev_state, &result_state)?;
+            .total_cost(edge, access_edges, prev_state, &result_state)?;
         let traversal_cost = total_cost - access_cost;
 
         let result = EdgeTraversal {
@@ -125,6 +129,7 @@ impl EdgeTraversal {
     ) -> Result<EdgeTraversal, SearchError> {
         let mut result_state = prev_state.to_vec();
         let mut access_cost = Cost::ZERO;
+        let mut access_edges = None;
 
         // find this traversal in the graph
         let traversal_trajectory = si.directed_graph.edge_triplet(&prev_edge_id)?;
@@ -145,6 +150,7 @@ impl EdgeTraversal {
                 .cost_model
                 .access_cost(e1, e2, prev_state, &result_state)?;
             access_cost = access_cost + ac;
+            access_edges = Some((e1, e2));
         }
 
         si.traversal_model.traverse_edge(
@@ -154,9 +160,11 @@ impl EdgeTraversal {
         )?;
 
         let (_, edge, _) = traversal_trajectory;
+        // the total includes the network cost of the access (e.g. a turn surcharge), of which
+        // access_cost is a share
         let total_cost = si
             .cost_model
-            .traversal_cost(edge, prev_state, &result_state)?;
+            .total_cost(edge, access_edges, prev_state, &result_state)?;
         let traversal_cost = total_cost - access_cost;
 
         let result = EdgeTraversal {
